@@ -1,4 +1,5 @@
 import AC.Drv.Proto
+import AC.Gen.AccGrammar
 import AC.SemX
 import AC.SemXText
 /-! driver handler for C03:
@@ -209,10 +210,13 @@ def handleC03 (f : List String) : Res :=
       -- parser model (AC/PegFull.lean, owned by C07): model parse of the text == impl tree
       let mTree := P.PegF.showRes (P.PegF.parse text)
       let r := cmp "parse" mTree T r
-      -- spec: a tree that is returned must be the one the published grammar assigns to the text. The
-      -- parser model is the PEG semantics of acc.peg (tied by the grammar extraction); `check` ignores
-      -- this clause when acc.peg itself no longer matches its expectation.
-      let r := if T == "err" then r else specIf "tree-as-published-grammar" (mTree == T) r
+      -- the published grammar, executed: generic PEG interpreter on the table regenerated from acc.peg
+      let gTree := P.PegF.showRes (AC.PegG.pegParse AC.Gen.accGrammar text)
+      let r := cmp "parse-by-regenerated-grammar" gTree T r
+      -- spec: a tree that is returned must be the one the published grammar assigns to the text
+      -- (`check` treats this clause as a correspondence difference when the action code of acc.peg no
+      -- longer matches its expectation: the interpreter's actions are written from that code)
+      let r := if T == "err" then r else specIf "tree-as-published-grammar" (gTree == T) r
       -- the composed text-level model == impl load outcome
       let mText := match loadText text with
         | .ok st => showNats st.chain
